@@ -225,7 +225,7 @@ pub fn check(p: &Prog, rep: &mut Report) {
     let m = omodel::parse(&text).unwrap_or_else(|e| machinery(&format!("C02: {e}")));
     let bg = match m.bind_groups() {
         Ok(b) => b,
-        Err(omodel::interp::UnknownName::NoSuchVariant(v)) => {
+        Err(omodel::interp::UnknownName::NoSuchVariant(v)) | Err(omodel::interp::UnknownName::Missing(v)) => {
             rep.violation(p.key.clone(), format!("layout {v}"), detail(&v));
             return;
         }
